@@ -3,6 +3,7 @@ import AwProofs.Lemmas.C01Store
 import AwProofs.Lemmas.StoreSqlite
 import AwProofs.Lemmas.StoreMemory
 import AwProofs.Lemmas.StorePeewee
+import AwProofs.Lemmas.HeapOwn
 /-!
 # C01 — stored events come back exactly as inserted, and the store owns its copy
 
@@ -17,6 +18,16 @@ the `get_after_insert_*` / `bulk_insert_*` theorems compose them with the storag
 the inserted event gets an id that is fresh in its bucket, the bucket's list is the old list
 followed by the new events, and lookup by that id and the listing both return the event with
 exactly the instant, duration and data that were passed.
+
+**Part B (ownership, memory backend).** `Heap.State` is a heap of Python objects (event objects,
+metadata dicts, data dicts), the store's references into it and the set of objects the client
+holds; `Heap.api` is `aw_datastore/storages/memory.py`, `Heap.mutate` is anything the client can do
+to an object it holds, `Heap.observe` is everything reads can return, by value.
+`store_owns_copy`: in every state reachable by any interleaving of API calls and client mutations,
+no client mutation changes `observe`. The sqlite and peewee backends serialise every event and
+every metadata field into table rows on the way in and build new objects from rows on the way
+out: their model states (`Sqlite.St`, `Peewee.St`) contain values, no references, so there is
+nothing a client object could alias — nothing to prove beyond Part A.
 -/
 namespace AwProofs.C01
 open Aw Aw.Store
@@ -249,5 +260,102 @@ theorem bulk_insert_peewee {s s' : Peewee.St D} {b : String} {evs : List (Ev D)}
     refine List.map_congr_left fun p hp => ?_
     obtain ⟨h0, h1⟩ := hr p.1 (List.of_mem_zip hp).1
     exact peewee_roundtrip (Spec.withId p.1 p.2) h0 h1
+
+/-! ## ownership (memory backend) -/
+
+open Heap in
+/-- `separated`: in every reachable state no object reachable from the store — a bucket's metadata
+    dict, a stored event object, or the data dict behind either — is held by the client -/
+theorem separated {s : State} (h : Reachable s) : ∀ r, storeReach s r → s.client r = false :=
+  (reachable_sep h).sep
+
+open Heap in
+/-- every API call (create/update/delete bucket, get_metadata, buckets, insert_one, insert_many,
+    replace, replace_last, delete, get_event, get_events; any arguments) preserves the separation
+    invariant -/
+theorem api_preserves_separation {s : State} (h : Sep s) (a : Api) : Sep (api s a).1 :=
+  api_sep h a
+
+open Heap in
+/-- every client mutation of held objects preserves the separation invariant -/
+theorem mutation_preserves_separation {s : State} (h : Sep s) (m : Mut) (hm : m.held s = true) :
+    Sep (mutate s m) :=
+  mutate_sep h m hm
+
+open Heap in
+/-- the invariant holds initially and along every trace -/
+theorem reachable_separated {s : State} (h : Reachable s) : Sep s := reachable_sep h
+
+open Heap in
+/-- the store owns its copy: in every reachable state, whatever the client does to an object it
+    holds (the event it passed to insert, the event insert returned, an event or metadata dict a
+    read handed out, the dict it passed to create/update: set id / timestamp / duration, mutate the
+    data dict in place at any depth, assign another dict, overwrite metadata entries, create new
+    objects), everything reads return stays the same -/
+theorem store_owns_copy {s : State} (h : Reachable s) (m : Mut) (hm : m.held s = true) :
+    observe (mutate s m) = observe s :=
+  mutate_observe (reachable_sep h) m hm
+
+open Heap in
+/-- the same as a statement about trace steps (a mutation of an object the client does not hold is
+    not a step the client can take: `step` ignores it) -/
+theorem store_owns_copy_step {s : State} (h : Reachable s) (m : Mut) :
+    observe (step s (.mutation m)) = observe s := by
+  simp only [step]
+  split
+  · rename_i hm
+    exact store_owns_copy h m hm
+  · rfl
+
+/-! ## the hypotheses are satisfiable (non-vacuity) -/
+
+/-- codec range hypotheses: an instant in 2023 with a sub-millisecond duration part; the 2^51 µs
+    region (2041) that the float encoding of the pinned tree got wrong; the last supported day -/
+example : Codec.sqliteDecode (⟨some 3, 1700000000123000, 1234567, 7⟩ : Ev Nat) =
+    ⟨some 3, 1700000000123000, 1234567, 7⟩ :=
+  sqlite_roundtrip _ (by decide) (by decide) (by decide) (by decide)
+example : Codec.sqliteDecode (⟨none, 2250741852732000, 2193231764772, ()⟩ : Ev Unit) =
+    ⟨none, 2250741852732000, 2193231764772, ()⟩ :=
+  sqlite_roundtrip _ (by decide) (by decide) (by decide) (by decide)
+example : Codec.peeweeDur 2592000000001 = 2592000000001 :=
+  peewee_duration_roundtrip _ (by decide) (by decide)
+
+/-- sqlite: two buckets with interleaved ids, insert into "a" -/
+example : ∃ s', Sqlite.insertOne Sqlite.exS "a" Sqlite.exEv = .ok (s', 4) ∧
+    Sqlite.getEvent s' "a" 4 = some { Sqlite.exEv with id := some 4 } := by
+  refine ⟨_, rfl, ?_⟩
+  obtain ⟨m, es, _, _, hg, _⟩ := get_after_insert_sqlite Sqlite.exS_inv (b := "a") (e := Sqlite.exEv) rfl
+  exact hg
+example := bulk_insert_sqlite Sqlite.exS_inv (b := "a") (evs := [Sqlite.exEv, Sqlite.exEv]) rfl
+  (by decide) rfl
+
+/-- memory: bucket "b" holds ids 0, 1, 2; the next id is 3 -/
+example : Memory.getEvent (Memory.setKey Memory.exSt "b"
+      (Memory.exMeta, Memory.exEvs ++ [⟨some 3, 7, 1, 30⟩])) "b" 3 = .ok (some ⟨some 3, 7, 1, 30⟩) :=
+  memory_roundtrip Memory.exSt_inv (e := ⟨none, 7, 1, 30⟩) rfl rfl
+example := bulk_insert_memory Memory.exSt_inv (b := "b") (evs := [⟨none, 7, 1, 30⟩, ⟨none, 7, 1, 31⟩])
+  rfl (by decide) rfl
+
+/-- peewee: ids are global (1, 2, 3 in use over two buckets); the next id is 4 -/
+example := get_after_insert_peewee Peewee.Example.inv0 (b := "a") (e := Peewee.Example.e0)
+  (oi := some 4) rfl rfl
+example := bulk_insert_peewee Peewee.Example.inv0 (b := "a")
+  (evs := [Peewee.Example.e0, Peewee.Example.e0]) rfl (by decide) rfl
+
+open Heap in
+/-- ownership: a reachable state with a stored event, in which the client holds the event it
+    passed (3), its dict (2) and the event `insert_one` returned (4) and mutates them -/
+example :
+    let tr : List Step := [.api (.createBucket "b" ⟨none, "t", "c", "h", "2020", "{}"⟩ none),
+      .mutation (.newEvent none 5 1 "{\"a\":1}"), .api (.insertOne "b" 3)]
+    let s := tr.foldl step {}
+    Reachable s ∧ (observe s).map (fun p => p.2.2) = [[⟨some 0, 5, 1, "{\"a\":1}"⟩]] ∧
+    (Mut.setDict 2 "{}").held s = true ∧ (Mut.setTs 4 9).held s = true ∧
+    observe (mutate s (.setDict 2 "{}")) = observe s := by
+  intro tr s
+  have hr : Reachable s :=
+    .step (.api (.insertOne "b" 3)) (.step (.mutation (.newEvent none 5 1 "{\"a\":1}"))
+      (.step (.api (.createBucket "b" ⟨none, "t", "c", "h", "2020", "{}"⟩ none)) .init))
+  exact ⟨hr, by decide, by decide, by decide, store_owns_copy hr _ (by decide)⟩
 
 end AwProofs.C01
